@@ -466,6 +466,7 @@ func init() {
 					c16Space("wildcards", unionTrees(base, sp), append(wild, "*.*", "a.*.*", "a.*.a", "b.*.*"), 1),
 					c16Space("wildcard+plain-two-options", unionTrees(reuseTrees, dictTop(spinesAB(2))), []string{"a", "b", "a.a", "b.a", "**.a", "**.b", "**.c", "*.a", "a.*.*"}, 2),
 					c16IrrelevantOption(unionTrees(reuseTrees, dictTop(spinesAB(2))), []string{"a", "b", "a.a", "b.a", "a.b", "**.a", "**.b", "*.a", "a.*", "*.*"}),
+					c16NumericNames(),
 				}
 			}
 			// wildcard patterns alone and next to plain names; documents with a list at the top
@@ -498,6 +499,7 @@ func init() {
 				c16Space("wildcards-one-option", wildTrees, []string{"*", "*.*", "*.a", "a.*.*", "a.*.a", "**.a", "**.b", "**.0", "b.*"}, 1),
 				c16Space("wildcard+plain-two-options", wildTrees, []string{"a", "b", "a.a", "**.a", "**.c", "*.a", "a.*.*"}, 2),
 				c16IrrelevantOption(reuseTrees, []string{"a", "b", "a.a", "b.a", "**.a", "**.b", "*.a", "a.*"}),
+				c16NumericNames(),
 			}
 		},
 	})
